@@ -281,7 +281,7 @@ def replay(unit, job, o, inputs, scratch):
         return v & 0xFFFFFFFFFFFFFFFF if isinstance(v, int) else d
 
     def bits(arr, nk):
-        n = min(gi(nk), 64)
+        n = min(gi(nk), 80)
         return ''.join('1' if (gi('%s[%dl]' % (arr, i)) & 1) else '0' for i in range(n))
     a = [op, 'bits=' + bits('b', 'n'), 'obits=' + bits('c', 'm'), 'pos=%d' % gi('pos'), 'k=%d' % gi('k'), 'v=%d' % (gi('cvin_v') & 1)]
     return native_replay(scratch, a)
